@@ -247,6 +247,13 @@ def run_case(c):
                          "exc": repr(e), "traceback": traceback.format_exc()[-1500:]})
             return {"violations": viol, "obs": obs, "nontrivial": True, "key": "subset|%d|%d|%d|%d" % (N, c["mask"], c["b"], c["idx"])}
         compare_with_baseline(t, base, viol, "partial listener mask=%d" % c["mask"])
+        # a listener belongs to the solver it was added to: another solver running afterwards must not notify it
+        n_ev = len(events)
+        other = record.run_solver(scn, listener=False)
+        obs["foreign_solver_runs_after_attach"] = 1
+        if len(events) != n_ev:
+            viol.append({"mech": "listener-notified-by-another-solver", "extra_events": [e["cb"] for e in events[n_ev:]][:10], "mask": c["mask"]})
+            del events[n_ev:]
         glog = [e for e in t.log if e["ph"] == "g"]
         # expected callback sequence
         exp = []
